@@ -258,25 +258,25 @@ func init() {
 	// ---------------------------------------------------------- C09 state modules / C08 map order
 	{
 		var cs, cs8 []map[string]int64
-		for step := 0; step <= 6; step++ {
+		for step := 0; step <= 7; step++ {
 			for restart := 0; restart <= 1; restart++ {
 				cs = append(cs, cfg("step", step, "restart", restart))
 			}
 			cs8 = append(cs8, cfg("step", step, "concrete", 1))
 		}
 		add("C09", append([]string{
-			"state modules: every module is populated through its own mutators (3 accounts, 2 coins, a multisig, 2 candidates x 3 stakes, 2 validators, 3 frozen items, 2 waitlist entries, halts, update votes, 2 used checks, 2 pools, 2 orders), committed, modified by one of 6 second-block steps (optionally in a restarted process) and committed again; after each commit a fresh State over the same database must answer every getter like the continuing one",
+			"state modules: every module is populated through its own mutators (3 accounts, 2 coins, a multisig, 2 candidates x 3 stakes, 2 validators, 3 frozen items, 2 waitlist entries, halts, update votes, 2 used checks, 2 pools, 2 orders), committed, modified by one of 8 second-block steps (the last one replaces three candidates' public keys, which puts three entries into the block list) (optionally in a restarted process) and committed again; after each commit a fresh State over the same database must answer every getter like the continuing one",
 			"balances, frozen funds, waitlist, coin volume/reserve, slashed are symbolic; stakes, pool reserves and order volumes are concrete (they drive control flow / float-encoded keys)",
 			"IAVL pruning (DeleteVersion) and the paged on-disk order index under long interleavings are outside",
 		}, commonAssumptions...), HSpec{Pkg: "coreV2/state", Func: "VerifHarness_C09_StateRestart", Tier: "quick", Configs: cs,
-			Bounds: "two committed blocks over the universe above; 6 kinds of second-block activity x restart or not"})
+			Bounds: "two committed blocks over the universe above; 8 kinds of second-block activity x restart or not"})
 		add("C08", append([]string{
 			"reduction: block execution starts no goroutines and reads no clock into state; the remaining source of cross-instance divergence examined here is Go's randomised map iteration",
 			"every map range met while committing is explored in every order (all permutations up to 3 entries, rotations and reversal beyond), one deviating site per path (others in default order); the ordered sequence of database writes (store, key, value) must be identical across orders",
 			"data is concrete in this mode (write traces are compared textually); separate processes with different GOMAXPROCS/GOGC are not run; unstable-sort ties, pointer-order and third-party nondeterminism are outside",
 			"a violation is confirmed natively by running the same harness repeatedly and observing differing IAVL root hashes",
 		}, commonAssumptions...), HSpec{Pkg: "coreV2/state", Func: "VerifHarness_C09_StateRestart", Tier: "quick", Configs: cs8, Opts: gosym.HarnessOpts{MapOrders: true},
-			Bounds: "two State.Commit calls over the populated universe, 5 kinds of second-block activity; every iteration order at every map-range site, one deviating site per path"})
+			Bounds: "two State.Commit calls over the populated universe, 8 kinds of second-block activity; every iteration order at every map-range site, one deviating site per path"})
 	}
 
 	// ---------------------------------------------------------- C10 commit crash (application-level writes)
@@ -351,6 +351,24 @@ func init() {
 			}, commonAssumptions...),
 				HSpec{Pkg: "formula", Func: "VerifHarness_C12_" + fn, Tier: "quick", Configs: quick, Opts: real, Bounds: "supply, reserve, amount unbounded positive integers; crr as configured"},
 				HSpec{Pkg: "formula", Func: "VerifHarness_C12_" + fn, Tier: "thorough", Configs: all, Opts: real, Bounds: "every reserve ratio 10..99"})
+		}
+		// rounding of integers entering the 100-bit floats, on two slices where every
+		// intermediate float value is exactly representable
+		rounded := gosym.HarnessOpts{RealBodies: []string{modulePath + "/formula."}, FloatMode: "real-roundint"}
+		var rq, ra []map[string]int64
+		for _, c := range []int{10, 33, 50, 99} {
+			rq = append(rq, cfg("crr", c, "pip33", 1))
+		}
+		for c := 10; c <= 99; c++ {
+			ra = append(ra, cfg("crr", c, "pip33", 1))
+		}
+		for _, fn := range []string{"SellAllRounded", "NearTotalSaleRounded"} {
+			add("C12", append([]string{
+				"FloatMode real-roundint: big.Float.SetInt into a receiver of precision p rounds to nearest-even at p bits (exact integer model for 0 <= x < 2^(p+10)); every other float operation stays over exact reals; math.Pow uninterpreted with 0^y = 0",
+				"the two slices harnessed are those in which all intermediate float values are exactly representable, so the hybrid model coincides with the real arithmetic: selling the entire supply (any supply and reserve up to 10^33 pip), and selling all but one pip of a supply of exactly 10^33 pip (any reserve up to 10^33 pip)",
+			}, commonAssumptions...),
+				HSpec{Pkg: "formula", Func: "VerifHarness_C12_" + fn, Tier: "quick", Configs: rq, Opts: rounded, Bounds: "supply, reserve <= 10^33 pip; crr 10, 33, 50, 99"},
+				HSpec{Pkg: "formula", Func: "VerifHarness_C12_" + fn, Tier: "thorough", Configs: ra, Opts: rounded, Bounds: "every reserve ratio 10..99"})
 		}
 	}
 
